@@ -94,6 +94,15 @@ Theorem C18_object_equals_only_objects : forall l v,
 Proof. exact object_equals_only_objects. Qed.
 Print Assumptions C18_object_equals_only_objects.
 
+(* strings are ordered by stringCompare (signed bytes, then length), consistently for the four order operators *)
+Theorem C18_strings_ordered_by_stringCompare : forall s t,
+  op_lt (JStr s) (JStr t) = (string_compare s t <? 0)%Z /\
+  op_gt (JStr s) (JStr t) = (0 <? string_compare s t)%Z /\
+  op_le (JStr s) (JStr t) = (string_compare s t <=? 0)%Z /\
+  op_ge (JStr s) (JStr t) = (0 <=? string_compare s t)%Z.
+Proof. exact str_order. Qed.
+Print Assumptions C18_strings_ordered_by_stringCompare.
+
 (* the full statement (without wf) is FALSE of the faithful model, with this witness — the known finding *)
 Theorem C18_symmetry_needs_distinct_keys :
   exists a b, op_eq a b <> op_eq b a.
